@@ -50,7 +50,7 @@ def trace_phase(c, tier, extra_cases, corrupt=0):
     n, shards = (700, 16) if tier == "quick" else (12000, 96)
     path = os.path.join(vlib.WORK, "%s_trace.ndjson" % c.pid.lower())
     # + the rule-mix family (closed rule x span passing midnight x fallback) derived by TLC from the MC_DayEval alphabet
-    _, mix = common.rule_mix_cases(c, 25 if tier == "quick" else 6)
+    _, mix = common.rule_mix_cases(c, 80 if tier == "quick" else 20)
     with open(extra_cases, "a") as f:
         for x in mix:
             f.write(json.dumps(x) + "\n")
